@@ -35,6 +35,8 @@ def load_mutants():
     out = list(m.MUTANTS)
     for d in sorted(glob.glob(os.path.join(VERIF, "seeded", "*", "meta.json"))):
         meta = json.load(open(d))
+        if meta.get("neutralised"):
+            continue  # behaviour-preserving on the current tree (see its meta.json)
         out.append({"id": "seeded/" + os.path.basename(os.path.dirname(d)), "prop": meta["property"],
                     "patch": os.path.join(os.path.dirname(d), "patch.diff"), "note": meta.get("needs", "")})
     return out
